@@ -98,6 +98,34 @@ def split_top(s, sep=","):
     return out
 
 
+def load_enums(srcdir):
+    """Discriminants of the crate's fieldless enums, read from the source (the MIR dump prints variant names in
+    aggregates but numbers in switchInt): `Type::Variant` -> value. Fills ENUM_IDS."""
+    import glob
+    import os
+    for fn in sorted(glob.glob(os.path.join(srcdir, "*.rs"))):
+        try:
+            txt = open(fn, errors="replace").read()
+        except OSError:
+            continue
+        txt = re.sub(r"//[^\n]*", "", txt)
+        for m in re.finditer(r"\benum (\w+)\s*\{([^{}]*)\}", txt):
+            name, body = m.group(1), m.group(2)
+            body = re.sub(r"#\[[^\]]*\]", "", body)
+            vs = [v.strip() for v in body.split(",") if v.strip()]
+            if not vs or any("(" in v for v in vs):
+                continue
+            nxt = 0
+            for v in vs:
+                mm = re.fullmatch(r"(\w+)(?:\s*=\s*(0x[0-9a-fA-F_]+|\d[\d_]*))?", v)
+                if not mm:
+                    break
+                if mm.group(2):
+                    nxt = int(mm.group(2).replace("_", ""), 0)
+                ENUM_IDS[f"{name}::{mm.group(1)}"] = nxt
+                nxt += 1
+
+
 def parse_mir(text):
     funcs = {}
     consts = {}
@@ -419,8 +447,8 @@ class Explorer:
         if isinstance(v, Adt) and not v.items and v.discr is None and re.fullmatch(r"[\w:]+", v.name):
             key = "::".join(v.name.split("::")[-2:])
             if key not in ENUM_IDS:
-                ENUM_IDS[key] = len(ENUM_IDS) + 1
-            return BV(z3.BitVecVal(ENUM_IDS[key], 16), 16)
+                ENUM_IDS[key] = 40000 + len(ENUM_IDS)   # unknown to load_enums: any number distinct from the others
+            return BV(z3.BitVecVal(ENUM_IDS[key] & 0xFFFF, 16), 16)
         return None
 
     def obj_read(self, st, obj, path, ty):
@@ -702,6 +730,8 @@ class Explorer:
             v = self.read_place(st, frame, m.group(1))
             if isinstance(v, Adt) and v.discr is not None:
                 return BV(v.discr, 64, True)
+            if isinstance(v, BV) and v.width == 16 and not v.taint and ENUM_IDS:
+                return BV(z3.ZeroExt(48, v.e), 64, True)   # a fieldless enum kept as its discriminant (see _enum_operand / load_enums)
             if isinstance(v, Adt):
                 short = v.name.split("::")[-1]
                 known = {"None": 0, "Some": 1, "Ok": 0, "Err": 1}
